@@ -76,8 +76,13 @@ CLAIMED = {
          "Decides that angles and dihedrals take the periodic path like distances do, that C kernels and numpy references build (mid->first, mid->third) and consecutive bond vectors from the same atom slots and read them "
          "back in the order requested, that the cosine is clamped to [-1,1] before acos on every path and the dihedral is atan2(|b2| b1.(b2xb3), (b1xb2).(b2xb3)) in both implementations, and that PHI/PSI/OMEGA/CHI1-5 tables, "
          "offset parsing and per-chain lookup match the IUPAC definitions. Numerical values and sign at degeneracies are not decided.", _NOTE, "DESIGN.md §4 C07"),
+ "C06": ("algebraic value numbering of the C kernels on the clang AST (every scalar / SIMD lane as a polynomial normal form; polynomial identities of the QCP method), prange/serial clone comparison, protocol and guard checks on the Python / Cython layers",
+         "Decides for all inputs, in exact arithmetic: K(M) is the quaternion key matrix; C_0, C_1, C_2 are the coefficients of det(K - lambda I); msd = (G_a+G_b-2 lambda)/N clamped at 0 with lambda the largest root; "
+         "q is the cofactor eigenvector; rot[] is a proper rotation; sum_ij R_ij S_ji = q^T K q, which ties matrix layout, rotation convention and kernel argument order together; the SSE kernels (all four remainders of n mod 4, "
+         "masked tail, horizontal-add epilogue) produce M[3i+j] = sum a_i b_j, apply x' = x R, and centre by the float64 mean. Also: parallel and serial branches are identical; superpose centres alignment and displaced atoms by the "
+         "same float64 offset and restores the reference offset; cached traces are used only when valid; array roles at every kernel call site. Floating-point behaviour of the quartic solver is not decided.", _NOTE, "DESIGN.md §4 C06"),
 }
 _PENDING = "check not built yet in this round (design in DESIGN.md §4); will be claimed when its rules run clean"
-NA = {k: _PENDING for k in ["C06","C09","C10"]}
+NA = {k: _PENDING for k in ["C09","C10"]}
 NA["C16"] = ("every clause is numerical equality of computed arrays with closed-form expressions; no structural "
              "necessary condition covers more than one of the fifteen functions (DESIGN.md §5)")
